@@ -80,4 +80,5 @@ FieldStep ==
          j == FieldJudge(e)
      IN Note(j[1], e, j[2])
   /\ l' = l + 1
+  /\ UNCHANGED regs
 =============================================================================
